@@ -56,6 +56,7 @@ type Ctx struct {
 	notes    []string
 	usesQuant bool
 	wfSeen   map[string]bool
+	entrySym int // symbols with id <= entrySym denote the function-entry state
 }
 
 func newCtx(prog *Program, fnName string) *Ctx {
